@@ -145,8 +145,13 @@ impl SignatureConverter<'_> {
 
         if matches!(self.impl_receiver_kind, ImplReceiverKind::DynamicImpl) {
             // What the fn borrows from its dependency is borrowed from `__impl`, not from `&self`:
-            let impl_lifetime =
-                impl_lifetime.or_else(|| super::name_elided_output_lifetimes(sig));
+            let impl_lifetime = match impl_lifetime {
+                Some(lifetime) => {
+                    super::name_elided_output_lifetimes_as(sig, &lifetime);
+                    Some(lifetime)
+                }
+                None => super::name_elided_output_lifetimes(sig),
+            };
             sig.inputs
                 .insert(1, self.gen_impl_receiver(Span::call_site(), impl_lifetime));
         }
